@@ -29,6 +29,13 @@ CHECKS = {
          "and every negotiated parameter must lie in both raw policies per an independent model using the IANA table; failed handshakes must fail with an alert on at least one side and never one-sidedly complete.",
          "own credential type enabled in own settings (caller precondition); settings.versions never set directly; private _send/_recv_record_limit attributes read for the record-limit agreement",
          "DESIGN.md §4 C03"),
+ "C08": ("exploration",
+         "structure-aware mutation fuzzing through a well-keyed deviant peer + Hypothesis byte-level targets; oracle = exception-type / alert / closed / non-resumable / no-spin / bounded-memory clauses",
+         "Every handshake message of 12 honest handshake flavours (SSLv3..TLS 1.3, RSA/DHE/ECDHE/anon/SRP, client auth, HRR, tickets, ALPN/NPN/SNI) is mutated before protection by a deviant peer (byte flips, truncation/extension with "
+         "length fix-up, 1/2/3-byte field edits at any offset, zero/empty bodies, huge declared lengths, type changes, vector edge values, extension-level edits of hello messages), so encrypted phases are reached; raw byte strings hit the "
+         "server first flight, the client after its hello and an established connection. The victim must return or raise a TLS/socket exception, have sent a fatal alert for locally detected violations, be closed and non-resumable, never spin, and stay within a memory bound.",
+         "work bounded by a deterministic scheduler step budget; memory measured with tracemalloc in thorough tier and for huge-length cases; timing blow-ups inside C routines are out of reach",
+         "DESIGN.md §4 C08"),
  "C09": ("exploration",
          "property-based differential testing (Hypothesis) against independent reference implementations validated with the openssl CLI",
          "Every shipped pure-Python primitive and derivation function (AES-CBC/CTR, GCM, CCM/CCM-8, ChaCha20, Poly1305, ChaCha20-Poly1305, 3DES, RC4, HMAC, SSLv3/TLS1.0/TLS1.2 PRFs, "
